@@ -81,7 +81,8 @@ func drawLocalDistributedFxLoad(
 
 	loadEq, err := dLoad.AsEquation(xLength, loadScale)
 	if err != nil {
-		panic(err)
+		// The load starts and ends in the same position: there are no arrow lines to draw.
+		return
 	}
 
 	for _, t := range fxDistLoadLinePositions {
